@@ -30,7 +30,7 @@ MAXLIST = 12
 # an op is a tuple: (code, slot, args...)   slot 'a' / 'b'
 def show_op(o):
     c, t = o[0], o[1]
-    if c in "NRZQPE":
+    if c in "NRZQPEG":
         return "%s%s%d" % (c, t, o[2])
     if c in "FS":
         return "%s%s%d,%d" % (c, t, o[2], o[3])
@@ -51,7 +51,7 @@ def parse_case(line):
     for x in w[2:]:
         c, t, rest = x[0], x[1], x[2:]
         z = [int(v) for v in rest.split(",") if v != ""]
-        if c in "NRZQPE":
+        if c in "NRZQPEG":
             ops.append((c, t, z[0]))
         elif c in "FS":
             ops.append((c, t, z[0], z[1]))
@@ -93,7 +93,7 @@ def spec_step(T, o, st):
         st[t] = []
     elif c in "PE":
         st[t] = x + [o[2]]
-    elif c == "Q":
+    elif c in "QG":
         if o[2] >= len(x):
             return "invalid", None
         st[t] = x + [x[o[2]]]
@@ -217,7 +217,7 @@ class Gen:
             # after being moved from: re-establish a known value
             c = r.choice("NFLCAX") if self.known(u) else r.choice("NFLX")
         else:
-            c = r.choice("NFLCMAVYXPPQEIIIIRRRZS")
+            c = r.choice("NFLCMAVYXPPQGEIIIIRRRZS")
             if c in "CMAV" and not self.known(u):
                 c = "P"
         x = self.st[t] if self.known(t) else []
@@ -230,7 +230,7 @@ class Gen:
             return (c, t, self.vals(min(MAXLIST, self.around())))
         if c in "PE":
             return (c, t, self.val())
-        if c == "Q":
+        if c in "QG":
             if n == 0:
                 return ("P", t, self.val())
             return (c, t, r.choice([0, n - 1, r.randrange(n)]))
@@ -276,7 +276,7 @@ def directed(rng):
                                 [("P", "a", 9), ("E", "a", 8)], [("X", "a"), ("P", "a", 3)], [("Y", "a")],
                                 [("N", "a", n)], [("F", "a", n, 4)], [("N", "b", S + 1), ("A", "a")]]
                     if n:
-                        seconds += [[("Q", "a", 0), ("Q", "a", n - 1)], [("S", "a", n - 1, 55)]]
+                        seconds += [[("Q", "a", 0), ("Q", "a", n - 1)], [("G", "a", n - 1), ("G", "a", 0)], [("S", "a", n - 1, 55)]]
                     for pos in sorted({0, 1, n // 2, n - 1, n} & set(range(0, n + 1))):
                         tail = n - pos
                         for k in sorted({0, 1, tail - 1, tail, tail + 1, S - n, S - n + 1} & set(range(0, 30))):
@@ -307,6 +307,7 @@ def run_harness(exe, lines, timeout=900):
     start = 0
     env = vv.san_env()
     restarts = 0
+    leak_restarts = 0
     while start < len(lines):
         try:
             p = subprocess.run([exe], input="\n".join(lines[start:]) + "\n", env=env, timeout=timeout,
@@ -319,6 +320,18 @@ def run_harness(exe, lines, timeout=900):
         n = min(len(got), len(lines) - start)
         for i in range(n):
             out[start + i] = got[i]
+        if rc == 77 and n > 0 and start + n < len(lines):
+            # the harness leaves after a case that leaked (its line is complete):
+            # the next case starts in a fresh process
+            start += n
+            leak_restarts += 1
+            if leak_restarts > 3000:
+                for j in range(start, len(lines)):
+                    out[j] = "CRASH (too many leaking cases)"
+                break
+            continue
+        if rc == 77:
+            rc = 0
         if start + n >= len(lines):
             if rc != 0:
                 crashes[len(lines) - 1] = err
@@ -387,6 +400,15 @@ def run(ck):
         ck.tie = "regenerated+correspondence"
     res = vv.prove("Properties_C20", set())
     ck.add_proof(res)
+    if ck.thorough and not res["failure"]:
+        # independent re-check of the compiled closure of the property file
+        with vv.Lock("coq"):
+            rc, out = vv.sh(["coqchk", "-silent", "-o", "-Q", ".", "VV", "VV.Props.Properties_C20"],
+                            cwd=vv.COQ, timeout=1500)
+        axioms = "<none>" if "* Axioms: <none>" in out else out[out.find("* Axioms:"):][:400]
+        ck.coverage["coqchk"] = {"rc": rc, "axioms": axioms}
+        if rc != 0 or axioms != "<none>":
+            ck.add_unshown("proof", "coqchk", "coqchk -o of VV.Props.Properties_C20: rc=%d %s" % (rc, out[-400:]))
     # the findings on the pinned tree (..._refuted witnesses on the literal model)
     ok, out = vv.coq_make(["Props/Refuted_C20.vo"])
     if not ok:
